@@ -41,6 +41,10 @@ func RunWorker(p Property, tier Tier, seed uint64, from, to int, prefix string, 
 		fmt.Fprintf(logf, "call %d\n", idx)
 		c := NewCase(p.ID(), seed, tier, idx, b)
 		c.Replay = replay
+		c.Logf = logf
+		if lc, ok := p.(CallLogger); ok {
+			c.LogCalls = lc.LogCalls()
+		}
 		runCase(p, c)
 		if wantDigests {
 			sum := sha256.Sum256([]byte(c.digest.String()))
